@@ -406,7 +406,7 @@ def gen_c14(rng, cid, npool=6, nops=14):
     state = {i: p for i, p in enumerate(pool)}
     exp = []  # expected observations
     for _ in range(nops):
-        op = rng.choice(['XCOPY', 'XMOVE', 'XASG', 'XMASG', 'XEQ', 'XEQ', 'XMUTCOPY', 'XSELF', 'XTYPE'])
+        op = rng.choice(['XCOPY', 'XMOVE', 'XASG', 'XMASG', 'XEQ', 'XEQ', 'XMUTCOPY', 'XSELF', 'XTYPE', 'XETH'])
         a, b = rng.below(npool), rng.below(npool)
         if op == 'XEQ':
             lines.append('XEQ %d %d' % (a, b)); lines.append('XEQ %d %d' % (b, a)); lines.append('XEQ %d %d' % (a, a))
@@ -429,6 +429,15 @@ def gen_c14(rng, cid, npool=6, nops=14):
             lines += ['XMASG %d %d' % (a, b), 'XSHOW %d' % a]
             old = state[a]; state[a] = state[b]; state[b] = old
             exp.append(('show', state[a]))
+        elif op == 'XETH':
+            # edit the payload in place through the non-const getPayload() (size changes under the packet), then observe / copy it
+            if state[a] is None or state[a].get('nopl'):
+                continue
+            new = rng.bytes(rng.choice([0, 1, 5, 40, len(state[a]['payload']) + 1]))
+            old = state[a]['payload']
+            q = dict(state[a]); q['payload'] = (old + bytes(6))[:4] + be(len(new), 2) + new
+            lines += ['XETH %d %s' % (a, hx(new)), 'XSHOW %d' % a]
+            state[a] = q; exp.append(('show', q))
         elif op == 'XTYPE':
             # retag the payload through its public setters (bytes stay): also to not-valid types, which constructors would zero-fill
             if state[a] is None or state[a].get('nopl'):
@@ -704,7 +713,11 @@ def st_packet(rng, kind, dev, ifid=0):
     if kind == 'if':
         pay = if_payload(ifid=ifid, c=[rng.next() & 0xFFFFFFFF for _ in range(6)], status=rng.below(3))
         return dict(ver=1, mt=3, pt=2, ts=rng.next(), ifid=0, vendor=rng.below(65536), flags=0, dev=dev, stream=rng.below(3), seq=0, segtype=0, payload=pay)
-    return dict(ver=1, mt=1, pt=rng.choice([1, 0x7E]), ts=rng.next(), ifid=ifid, vendor=0, flags=0, dev=dev, stream=0, seq=0, segtype=0, payload=can_payload(data=rng.bytes(4)))
+    if kind == 'other':
+        # control / vendor / undefined message types whose payload-type BYTE equals that of the status messages (1, 2), payloads of any size
+        return dict(ver=1, mt=rng.choice([2, 255, 2, 255, 4, 0x7F]), pt=rng.choice([1, 2, 1, 2, 3]), ts=rng.next(), ifid=ifid, vendor=rng.below(65536), flags=0, dev=dev,
+                    stream=0, seq=0, segtype=0, payload=rng.choice([rng.bytes(rng.range(1, 3)), rng.bytes(60), be(ifid, 4) + rng.bytes(40), cm_payload(uptime=rng.next())]))
+    return dict(ver=1, mt=1, pt=rng.choice([1, 0x7E, 1, 2]), ts=rng.next(), ifid=ifid, vendor=0, flags=0, dev=dev, stream=0, seq=0, segtype=0, payload=can_payload(data=rng.bytes(4)))
 
 def gen_c16(rng, cid, nops, devs=(1, 2, 3), ifs=(10, 20, 30)):
     lines = []
@@ -717,7 +730,7 @@ def gen_c16(rng, cid, nops, devs=(1, 2, 3), ifs=(10, 20, 30)):
         k = rng.below(12)
         d = rng.choice(devs); i = rng.choice(ifs)
         if k < 7:
-            kind = rng.choice(['cm', 'cm', 'if', 'if', 'if', 'data'])
+            kind = rng.choice(['cm', 'cm', 'if', 'if', 'if', 'data', 'other'])
             key = (kind, d, i if kind != 'cm' else 0)
             if key in last and rng.chance(2, 5):
                 # the same message again with the SAME payload and only header fields changed (an idle interface whose flags /
@@ -730,7 +743,7 @@ def gen_c16(rng, cid, nops, devs=(1, 2, 3), ifs=(10, 20, 30)):
                     elif f == 'stream': p['stream'] = rng.below(256)
                     elif f == 'ver': p['ver'] = rng.range(1, 255)
                     else:
-                        b = bytearray(p['payload']); q = (rng.below(8) if kind == 'cm' else 4 + rng.below(8)) if kind != 'data' else len(b) - 1; b[q] ^= 1 << rng.below(8); p['payload'] = bytes(b)
+                        b = bytearray(p['payload']); q = (rng.below(8) if kind == 'cm' else 4 + rng.below(8)) if kind in ('cm', 'if') else len(b) - 1; b[min(q, len(b) - 1)] ^= 1 << rng.below(8); p['payload'] = bytes(b)
             else:
                 p = st_packet(rng, kind, d, i)
                 p['flags'] = rng.choice([0, 0, 1, 2, 0x80, rng.below(256) & 0xB3])
